@@ -1222,6 +1222,17 @@ fn generate_deadlock(seed: u64) -> Scenario {
                     body: sub,
                 }),
                 5 => steps.push(Step::DetachedAsk { target: t, body: sub }),
+                7 => {
+                    // two ask futures made up front, awaited in turn; the second one goes to a leaf that asks nobody
+                    let t2 = (t + 1 + r.below(n as u64 - 1) as usize) % n;
+                    *uid += 1;
+                    let leaf = Body::plain(*uid);
+                    if t2 != from && t2 != t {
+                        steps.push(Step::SeqAsk2 { t1: t, b1: sub, t2, b2: leaf });
+                    } else {
+                        steps.push(Step::Peer { target: t, kind: SendKind::Ask, mty: MTy::U, body: sub });
+                    }
+                }
                 // ask_join awaited inside a hook is an ask like any other as far as cycles are concerned
                 6 => steps.push(Step::Peer {
                     target: t,
